@@ -234,6 +234,12 @@ def run(ctx):
         # what the three late filters keep: evaluate their predicates on an explicit entry {applies_in: None, applies_to: None}
         ef = ctx.anchor_fn("R12.1", "watchexec_cli::dirs::explicit_ignore_files")
         cl = [c for c in facts.children(ef) if c.kind == "closure"]
+        # the mapping function may also be a named fn handed to `map` (`.map(explicit_ignore_file)`)
+        for n_ in thir.walk(thir.root(ef)):
+            if isinstance(n_, dict) and n_.get("k") == "fn" and str(n_.get("def", "")).startswith("watchexec_cli::"):
+                g_ = facts.find_fn(n_["def"])
+                if g_ is not None and g_ not in cl:
+                    cl.append(g_)
         okx = False
         for c in cl:
             v = thir.expr_value(thir.root(c))
